@@ -48,7 +48,11 @@ ALPHA = "Aa_0"
 IDS = ["".join(s) for n in (1, 2, 3) for s in itertools.product(ALPHA, repeat=n) if s[0] != "0"]
 DOLLAR = ["$1", "$2", "$10", "$11", "$A", "$a", "$_", "$A0", "$AA", "$A_", "$$A", "$$a"]
 assert len(IDS) == 63 and len(set(IDS)) == 63
-GI = {n: i for i, n in enumerate(IDS)}          # global index: makes values/sizes unique per name
+# names that begin like the prefixes the runtime strips from struct/union/enum names ("struct ", "union ",
+# "enum ") -- used as typedef names of anonymous types they exercise the '$name' <-> 'name' mapping
+KW = ["union_t", "unionx", "union_", "struct_t", "structx", "enum_t", "enumx", "unio", "t"]
+IDS_X = IDS + KW
+GI = {n: i for i, n in enumerate(IDS_X)}        # global index: makes values/sizes unique per name
 CORE6 = ["A", "a", "_", "A0", "AA", "A_"]
 CORE8 = CORE6 + ["Aa", "_A"]
 CORE12 = CORE8 + ["a0", "AAA", "__", "aA"]
@@ -225,7 +229,7 @@ def probe_module(which, S, ffi, lib, mode):
             return
         bad.append((what, u, "non-member was found: %r" % (r,)))
 
-    for u in IDS:
+    for u in IDS_X:
         g = GI[u]
         member = u in S
         if which == "a":
@@ -416,6 +420,8 @@ def run(ctx):
     k_abi = 2 if ctx.quick else 3
     sets = list(enumerate_sets(IDS, k_abi))
     sets.append(tuple(IDS))
+    sets.extend(enumerate_sets(KW, 2))                 # keyword-prefixed names, alone and in pairs ...
+    sets.extend((a, b) for a in KW for b in ("A", "_", "a0"))     # ... and next to ordinary names
     if not ctx.quick:
         sets.extend(tuple(x for x in IDS if x != y) for y in IDS)
     nontrivial = set()
